@@ -102,6 +102,8 @@ def cut_loop(eng, node, st, k, ctx, n, lc, guard_fn, pre_body, post_body, index_
         cur = st.env.get(nm)
         if cur is not None and cur.s[0] == "list" and cur.s[1] == ("unk",):
             st.env[nm] = V(srt, cur.t)      # empty literal list: element sort declared by the loop contract
+        elif cur is not None and cur.s == PY and cur.t is None and srt[0] in ("ref", "list", "opq") and srt[2]:
+            st.env[nm] = V(srt, z3.IntVal(0))      # None in a local of declared nullable reference sort
     outer_entry = st.loop_entry
     entry = st.fork()
     entry.loop_entry = outer_entry
@@ -145,7 +147,19 @@ def cut_loop(eng, node, st, k, ctx, n, lc, guard_fn, pre_body, post_body, index_
     eng.apply_granular(st, gran_arrays, modset)
     for g in lc.get("ghost_modifies", []):
         eng.havoc_arrays(st, ["ghost." + g])
-    havoc_locals(eng, st, body_names)
+    stable = [n_ for n_ in lc.get("stable", []) if n_ in st.env]
+    stable_vals = {n_: st.env[n_] for n_ in stable}
+    havoc_locals(eng, st, [n_ for n_ in body_names if n_ not in stable])
+    if lc.get("forget_callee_facts", True):
+        # quantified facts assumed from callees BEFORE the loop relate states the loop has just replaced; dropping hypotheses is sound and
+        # keeps the body's obligations small (the invariant has to carry what the body needs)
+        from .engine import TAGS
+        from .solve import has_quant
+
+        def stale(h):
+            t = TAGS.get(h.get_id())
+            return t is not None and not t.startswith(("requires:", "inv:", "typing")) and has_quant(h, lambdas_count=False)
+        st.pc = [h for h in st.pc if not stale(h)]
     index_havoc = lc.get("_index_havoc")
     if index_havoc:
         index_havoc(st)
@@ -170,6 +184,12 @@ def cut_loop(eng, node, st, k, ctx, n, lc, guard_fn, pre_body, post_body, index_
         def end_of_body(s_end):
             check_declared(s_end)
             post_body(s_end)
+            for n_ in stable:
+                # a local the contract declares stable is not havocked; the body must leave it with the value it had at loop entry
+                eng.oblige(s_end, eng.equal(s_end, s_end.env[n_], stable_vals[n_]) if s_end.env[n_].s[0] not in ("ref", "list", "opq")
+                           else s_end.env[n_].t == stable_vals[n_].t, "inv-step", f"loop{n}:stable-{n_}", node,
+                           text=f"{n_} has the value it had at loop entry (declared stable)")
+                s_end.env[n_] = stable_vals[n_]
             check_invs(eng, s_end, lc, n, "inv-step", node, index_extra(s_end))
             if variant0 is not None:
                 v1 = SpecEval(eng, s_end, pre_state=s_end.old, extra=index_extra(s_end)).value(lc["decreases"])
